@@ -279,6 +279,69 @@ def rule_r5(chk, facts, P):
         raise AnalysisBroken('argument slot stores of ExpandMacro not found')
 
 
+def rule_r6(chk, facts, P):
+    chk.rule('C11-R6', 'the argument list of a macro expansion and its counter move together: in ExpandMacro() and '
+             'ExpandSHIFT() every call that lengthens or shortens tag->Params (AddStringListLast/First, '
+             'GetAndCutStringList) is accompanied on every path by the matching ++/-- of tag->ParCnt, or stands in the '
+             'construction loop whose trip count is the value assigned to ParCnt; MACRO_Processor() substitutes every '
+             'formal parameter (its loop bound covers Macro->ParamCount)', min_instances=4)
+    n = 0
+    for fn in ('ExpandMacro', 'ExpandSHIFT'):
+        f = facts.func('as.c', fn)
+        cnt_assign = [nocast(m[3]) for b, i, ln, m in f.nodes()
+                      if is_assign(m) and m[1] == '=' and strip(m[2])[0] == 'm' and strip(m[2])[2].endswith('.ParCnt')]
+        for b, i, ln, c in f.calls({'AddStringListLast', 'AddStringListFirst', 'GetAndCutStringList'}):
+            a0 = nocast(c[2][0])
+            if not (a0[0] == 'u' and a0[1] == '&' and strip(a0[2])[0] == 'm' and strip(a0[2])[2].endswith('.Params')):
+                continue
+            n += 1
+            base = strip(strip(a0[2])[1])
+            up = callee_name(c) != 'GetAndCutStringList'
+
+            def adj(ex, base=base, up=up):
+                for m in walk_own(ex):
+                    if is_incdec(m) and strip(m[2])[0] == 'm' and strip(m[2])[2].endswith('.ParCnt') and strip(strip(m[2])[1]) == base:
+                        if ('+' in m[1]) == up:
+                            return True
+                    if is_assign(m) and m[1] in ('+=', '-=') and strip(m[2])[0] == 'm' and strip(m[2])[2].endswith('.ParCnt') and \
+                            const_val(m[3]) == 1 and (m[1] == '+=') == up:
+                        return True
+                return False
+            ok = f.must_pass(b, i, adj)[0] or f.guarded(b, i, lambda l: False, adj)[0]
+            why = 'counter adjusted with the list'
+            if not ok:
+                # construction loop: for (z = E; ...) / for (...; z <= E; ...) with tag->ParCnt = E
+                for (h, s0) in f.loops():
+                    if b in f.loop_body(h, s0):
+                        hc = f.blocks[h].get('cond')
+                        inits = [nocast(m[3]) for bb, ii, ll, m in f.nodes() if is_assign(m) and m[1] == '=' and hc is not None and
+                                 any(strip(x) == strip(m[2]) for x in walk(hc) if isinstance(x, (list, tuple)) and x and x[0] == 'l')]
+                        if any(e in cnt_assign for e in inits) or (hc is not None and any(
+                                nocast(x) in cnt_assign for x in walk(hc) if isinstance(x, (list, tuple)) and x and x[0] == 'm')):
+                            ok = True
+                            why = 'construction loop over the value assigned to ParCnt'
+            chk.ob('C11-R6', 'as.c:%s:%s@%d' % (fn, callee_name(c), n), ok, f.loc(ln), why if ok else
+                   '%s(&%s->Params, ..) changes the length of the argument list but %s->ParCnt is not adjusted: after SHIFT '
+                   'the last parameters are no longer substituted and ARGCOUNT is wrong' % (callee_name(c), show(base), show(base)))
+    mp = facts.func('as.c', 'MACRO_Processor')
+    okp = False
+    for (h, s0) in mp.loops():
+        hc = mp.blocks[h].get('cond')
+        body = mp.loop_body(h, s0)
+        if any(c_ for bb in body for l2, ex in mp.blocks[bb]['elems'] for c_ in walk_own(ex) if c_[0] == 'call' and callee_name(c_) == 'ExpandLine'):
+            # the loop condition (possibly split over blocks by ||) mentions ParamCount somewhere in the loop's conditions
+            conds = [mp.blocks[bb].get('cond') for bb in body] + [hc]
+            if any(cc is not None and mentions(cc, lambda x: isinstance(x, (list, tuple)) and x and x[0] == 'm' and x[2].endswith('.ParamCount'))
+                   for cc in conds):
+                okp = True
+    n += 1
+    chk.ob('C11-R6', 'as.c:MACRO_Processor:covers-formals', okp, mp.loc(), 'substitution loop covers every formal parameter' if okp else
+           'the substitution loop runs only up to ParCnt: a formal parameter whose argument was shifted away keeps its raw '
+           'token in the expanded line')
+    if n < 4:
+        raise AnalysisBroken('argument list operations of ExpandMacro/ExpandSHIFT not found')
+
+
 def run(chk, facts, info):
     P = facts.program('asl')
     rule_r1(chk, facts, P)
@@ -286,6 +349,7 @@ def run(chk, facts, info):
     rule_r3(chk, facts, P)
     rule_r4(chk, facts, P)
     rule_r5(chk, facts, P)
+    rule_r6(chk, facts, P)
     chk.note('Decided: private symbol space per expansion/iteration, inertness of expansion entry points under skipped '
              'conditionals, special token numbering, terminator-aware growth of line buffers. Not decided: the '
              'textual-substitution equivalence itself.')
